@@ -6,8 +6,7 @@ from gen import strarr as SA
 SRC = ['src/avtp/acf/custom/Vss.c', 'src/avtp/Utils.c']
 
 
-def run(tier, only=None):
-    chk = Check('C10', tier)
+def build(tier, only, chk):
     jobs = []
     S, L = (2, 2) if tier == 'quick' else (2, 3)
     if tier == 'thorough':
@@ -34,6 +33,14 @@ def run(tier, only=None):
                             meta={'lengths': list(v), 'requested_count': req, 'layout': 'exact extent'}))
     jobs.append(Job('c10.count300', SA.c10_count_many(300), SRC, unwind=620, timeout=600,
                     meta={'strings': 300, 'string_length': 0}))
+    return jobs
+
+
+def run(tier, only=None):
+    chk = Check('C10', tier)
+    jobs = build(tier, only, chk)
+    S, L = (2, 2) if tier == 'quick' else (2, 3)
+    ES, EL = (3, 2) if tier == 'quick' else (4, 3)
     chk.run(jobs)
     chk.assumptions = STD_ASSUME + [
         'bounds: (F, thorough tier only) up to %d strings of up to %d bytes; (E) every length vector with up to %d strings of up to %d bytes; '
